@@ -243,7 +243,7 @@ def declPair (n : Nat) (p : Nat × List Ident × Expr) : M ν Unit :=
 /-- the model's 令 statement, with the two loops named -/
 theorem evalStmt_varDecl (n ln : Nat) (pairs : List (Nat × List Ident × Expr)) :
     evalStmt (ν := ν) (n+1) (.varDecl ln pairs) = (do
-      setTopFrame fun fr => { fr with line := ln }
+      setTopFrame fun fr => { fr with line := ln, started := true }
       pairs.forM (declPair n)
       newNull) := by
   simp only [evalStmt]
@@ -334,7 +334,7 @@ and (for distinct names) each name denotes its own address. -/
 theorem varDecl_spec (n ln ty : Nat) (vars : List Ident) (e : Expr) (s s' : VM ν) (r : Addr)
     (hty : ty = 1 ∨ ty = 3)
     (h : evalStmt (n+1) (.varDecl ln [(ty, vars, e)]) s = (.ok r, s')) :
-    ∃ s0 obj s1, setTopFrame (fun fr => { fr with line := ln }) s = (.ok (), s0) ∧ evalExpr n e s0 = (.ok obj, s1) ∧
+    ∃ s0 obj s1, setTopFrame (fun fr => { fr with line := ln, started := true }) s = (.ok (), s0) ∧ evalExpr n e s0 = (.ok obj, s1) ∧
       ∀ t, content n s1.heap obj = some t →
         ∃ bs, Ext s1.heap s'.heap ∧ Copies n s1.heap.size t (vars.map (·.lit)) bs s' ∧ ∀ b ∈ bs, Disj s'.heap obj b := by
   rw [evalStmt_varDecl] at h
@@ -492,7 +492,7 @@ def iterPass1 (n : Nat) (vn : String) (body : Option (List Stmt)) (v : Addr) : M
 
 theorem evalStmt_iterate1 (n ln : Nat) (e : Expr) (x : Ident) (body : Option (List Stmt)) :
     evalStmt (ν := ν) (n+1) (.iterate ln e [x] body) = (do
-      setTopFrame fun fr => { fr with line := ln }
+      setTopFrame fun fr => { fr with line := ln, started := true }
       withScope do
         let target ← evalExpr n e
         let vn ← matchIDName x.lit
@@ -529,7 +529,7 @@ def iterPass2 (n : Nat) (kn vn : String) (body : Option (List Stmt)) (key v : Ad
 
 theorem evalStmt_iterate2 (n ln : Nat) (e : Expr) (k x : Ident) (body : Option (List Stmt)) :
     evalStmt (ν := ν) (n+1) (.iterate ln e [k, x] body) = (do
-      setTopFrame fun fr => { fr with line := ln }
+      setTopFrame fun fr => { fr with line := ln, started := true }
       withScope do
         let target ← evalExpr n e
         let kn ← matchIDName k.lit
@@ -674,5 +674,41 @@ theorem getProperty_obj (n : Nat) (o : Addr) (name : String) (v : Addr) (s : VM 
     | (split
        · exact absurd rfl hn
        · rw [hl]; rfl)
+
+/-! ## the default values of a type declaration (`compileClass`) -/
+
+/-- one `其 ‹名› 为 ‹值›` line of a type declaration (verbatim from `evalClassDecl`): the value is evaluated, and the type
+keeps a copy of it (`ref.DefineProperty(propID, value.DuplicateValue(element))`) -/
+def propDefault (n : Nat) (p : Option Ident × Expr) : M ν (String × Addr) :=
+        match p.1 with
+        | some pid => do
+          let v ← evalExpr n p.2
+          let v' ← dup n v
+          pure (pid.lit, v')
+        | none => goPanic
+
+/-- what `evalClassDecl` does with the evaluated defaults (verbatim) -/
+def classTail (cm : Option (Nat × Module)) (cname : String) (methods : List Stmt) (propVals : List (String × Addr)) :
+    M ν Unit := do
+      let propMap := propVals.foldl (fun acc kv => assocSet kv.1 kv.2 acc) []
+      let meths ← methods.mapM fun m =>
+        match m with
+        | .funcDecl _ (some mn) _ exec => do let f ← alloc (.fn (.user exec)); pure (mn.lit, f)
+        | _ => goPanic
+      let methMap := meths.foldl (fun acc kv => assocSet kv.1 kv.2 acc) []
+      let cv ← alloc (.cls cname .default propMap methMap)
+      declareElement cname cv true
+      match cm with
+      | some (i, _) => addExport i cname cv
+      | none => goPanic
+
+theorem evalClassDecl_eq (n ln : Nat) (name : Option Ident) (props : List (Option Ident × Expr)) (methods getters : List Stmt) :
+    evalClassDecl (ν := ν) (n+1) (.classDecl ln name props methods getters) = (do
+      let cm ← currentModule
+      let cname ← matchIDNameOpt name
+      let propVals ← props.mapM (propDefault n)
+      classTail cm cname methods propVals) := by
+  simp only [evalClassDecl]
+  rfl
 
 end ZnVerif.Model
